@@ -19,6 +19,8 @@ RULES = {
     "CW-CASCADE-MERGE": rules_cw.rule_cascade,
     "CW-CASCADE-DECISION": rules_cw.rule_cascade,
     "CW-ALLOC-RANGE": rules_cw.rule_alloc_range,
+    "CW-DEC-NONZERO": rules_cw.rule_dec_nonzero,
+    "CW-STAMP-MODULAR": rules_cw.rule_stamp_modular,
 }
 
 
@@ -32,7 +34,7 @@ PROPS = {}
 
 def prop(pid, level, rules, not_decided, witnesses=(), assumptions=()):
     PROPS[pid] = {"level": level, "rules": list(rules), "not_decided": list(not_decided),
-                  "witnesses": list(witnesses), "assumptions": list(assumptions)}
+                  "witnesses": list(witnesses), "assumptions": list(assumptions), "selftest": True}
 
 
 def run_rules(ctx, names):
